@@ -14,7 +14,7 @@
 EXTENDS Protocol, Json, IOUtils
 
 Rec == ndJsonDeserialize(IOEnv.TRACE)
-Kinds == {"f", "quiet", "end"}
+Kinds == {"f", "quiet", "echo", "end"}
 \* tally[d][role][cmd]: frames submitted / received per role in this scenario (conservation at the end)
 Zero == [c \in 0..10 |-> 0]
 InitSt(e) == [base |-> IF "consts" \in DOMAIN e THEN e.consts.base ELSE 0, ep |-> <<>>,
@@ -34,6 +34,9 @@ Apply(s, e) ==
                      fr == [cmd |-> e.cmd, sid |-> e.sid, len |-> e.len]
                      r == IF e.d = "rx" THEN Rx(p, fr) ELSE Tx(p, fr)
                  IN  IF r.ok THEN TOk([Tally(s, e) EXCEPT !.ep = Put(@, e.sess, r.st)]) ELSE TNo(s, r.prop \o ": " \o r.why)
+      \* an application connection through a front-end, the client, TLS, the server and an echoing target
+      [] e.ev = "echo" ->
+            IF e.ok THEN TOk(s) ELSE TNo(s, "C01: the bytes echoed through front-end, client, server and target are not the bytes the application sent (lost, altered or reordered)")
       [] e.ev = "quiet" ->
             IF e.sess \in DOMAIN s.ep /\ s.ep[e.sess].hbRespTx < s.ep[e.sess].hbReqRx - 1 THEN TNo(s, "ext: a keep-alive request was left unanswered on a quiet session")
             ELSE TOk(s)
